@@ -246,6 +246,14 @@ fn online_key_of(reply: &[u8]) -> Option<Vec<u8>> {
     Some(df.iter().find(|(t, _)| t == b"PUBK")?.1.clone())
 }
 
+/// NONC of a reply / request (lenient)
+fn nonce_of(dgram: &[u8]) -> Option<Vec<u8>> {
+    use crate::client::tv_parse;
+    let body = if dgram.starts_with(b"ROUGHTIM") { dgram.get(12..)? } else { dgram };
+    let f = tv_parse(body)?;
+    Some(f.iter().find(|(t, _)| t == b"NONC")?.1.clone())
+}
+
 fn health_once(port: u16) -> bool {
     let addr: SocketAddr = format!("127.0.0.1:{}", port).parse().unwrap();
     match TcpStream::connect_timeout(&addr, Duration::from_secs(2)) {
@@ -321,6 +329,39 @@ fn startup_case(out: &mut Out, r: &mut Rng, cfg: &ProcCfg) {
             }
         }
     }
+    // burst probe: many connections pending at once behind a single readiness event. The server is
+    // stopped (SIGSTOP) while the kernel completes the handshakes into the accept queues, then continued.
+    let (mut hc_burst_ok, mut hc_burst_n) = (0usize, 0usize);
+    if let Some(hp) = sp.hc_port {
+        if n <= 4 {
+            let k = 50 * n + 50;
+            sp.signal(libc::SIGSTOP);
+            let addr: SocketAddr = format!("127.0.0.1:{}", hp).parse().unwrap();
+            let mut conns = vec![];
+            for _ in 0..k {
+                if let Ok(c) = TcpStream::connect_timeout(&addr, Duration::from_secs(2)) {
+                    conns.push(c);
+                }
+            }
+            sp.signal(libc::SIGCONT);
+            hc_burst_n = k;
+            let deadline = Instant::now() + Duration::from_secs(4);
+            for mut c in conns {
+                let left = deadline.saturating_duration_since(Instant::now()).max(Duration::from_millis(50));
+                c.set_read_timeout(Some(left)).ok();
+                let mut buf = vec![];
+                let mut tmp = [0u8; 256];
+                loop {
+                    match c.read(&mut tmp) {
+                        Ok(0) => break,
+                        Ok(m) => buf.extend_from_slice(&tmp[..m]),
+                        Err(_) => break,
+                    }
+                }
+                if buf == HTTP_RESPONSE.as_bytes() { hc_burst_ok += 1; }
+            }
+        }
+    }
     // UDP still served after the health checks
     let s = UdpSocket::bind("127.0.0.1:0").unwrap();
     s.set_read_timeout(Some(Duration::from_millis(500))).unwrap();
@@ -337,8 +378,8 @@ fn startup_case(out: &mut Out, r: &mut Rng, cfg: &ProcCfg) {
     let panics = text.matches("panicked").count();
     let leak = leak_scan(&secret_patterns(&cfg.seed), text.as_bytes()).unwrap_or("0".into());
     let imp = format!(
-        "started=1 n={} live0={} live1={} keys={} answered={}/{} hc_seq={}/{} hc_par={}/{} udp_after={} alive={} panics={} exit={} leak={}",
-        n, live0, live1, keys.len(), answered, sent, hc_seq_ok, if sp.hc_port.is_some() { 20 } else { 0 }, hc_par_ok, hc_par_n,
+        "started=1 n={} live0={} live1={} keys={} answered={}/{} hc_seq={}/{} hc_par={}/{} hc_burst={}/{} udp_after={} alive={} panics={} exit={} leak={}",
+        n, live0, live1, keys.len(), answered, sent, hc_seq_ok, if sp.hc_port.is_some() { 20 } else { 0 }, hc_par_ok, hc_par_n, hc_burst_ok, hc_burst_n,
         udp_after, if alive { 1 } else { 0 }, panics,
         exit.map(|e| e.0.to_string()).unwrap_or("timeout".into()), leak
     );
@@ -409,20 +450,32 @@ fn workers_round(out: &mut Out, r: &mut Rng, nworkers: usize, nclients: usize, p
                 sock.set_read_timeout(Some(Duration::from_millis(1500))).unwrap();
                 let mut pairs: Vec<(Vec<u8>, Vec<Vec<u8>>)> = vec![];
                 let mut buf = [0u8; 4096];
+                // replies are attributed to requests by their echoed nonce (a reply that arrives after
+                // this client moved on must not be mistaken for the next request's reply)
+                let mut extra: Vec<Vec<u8>> = vec![];
+                let mut attribute = |pairs: &mut Vec<(Vec<u8>, Vec<Vec<u8>>)>, extra: &mut Vec<Vec<u8>>, reply: Vec<u8>| {
+                    let rn = nonce_of(&reply);
+                    match pairs.iter_mut().find(|(q, _)| rn.is_some() && nonce_of(q) == rn) {
+                        Some((_, rs)) => rs.push(reply),
+                        None => extra.push(reply),
+                    }
+                };
                 for _ in 0..per_client {
                     let req = if rr.chance(1, 2) { classic_request(&rr.bytes(64), 1024) } else { ietf_request(&VER13, None, &rr.bytes(32), 1024 + 4 * rr.below(20) as usize) };
                     sock.send_to(&req, addr).unwrap();
-                    let mut replies = vec![];
+                    pairs.push((req, vec![]));
                     if let Ok((n, _)) = sock.recv_from(&mut buf) {
-                        replies.push(buf[..n].to_vec());
+                        attribute(&mut pairs, &mut extra, buf[..n].to_vec());
                     }
-                    pairs.push((req, replies));
                 }
-                // anything still arriving is a duplicate / misdirected reply
-                sock.set_read_timeout(Some(Duration::from_millis(150))).unwrap();
-                let mut extra = vec![];
+                // late replies
+                sock.set_read_timeout(Some(Duration::from_millis(300))).unwrap();
                 while let Ok((n, _)) = sock.recv_from(&mut buf) {
-                    extra.push(buf[..n].to_vec());
+                    attribute(&mut pairs, &mut extra, buf[..n].to_vec());
+                }
+                // more than one reply for a request counts as extra
+                for (_, rs) in pairs.iter_mut() {
+                    while rs.len() > 1 { extra.push(rs.pop().unwrap()); }
                 }
                 (pairs, extra)
             })
@@ -476,7 +529,8 @@ fn shutdown_case(out: &mut Out, r: &mut Rng, nworkers: usize, client_stats: bool
     let seed = r.bytes(32);
     let mut cfg = ProcCfg::basic(seed.clone(), nworkers);
     cfg.client_stats = client_stats;
-    cfg.status = Some(10);
+    // status_interval also paces the statistics reporter: cover short, medium and the default (600 s)
+    cfg.status = match delay_ms % 3 { 0 => None, 1 => Some(10), _ => Some(120) };
     let desc = format!("seed={},workers={},stats={},sig={},regime={},delay={}", hex(&seed), nworkers, if client_stats { 1 } else { 0 },
         if sig == libc::SIGINT { "INT" } else { "TERM" }, regime, delay_ms);
     let mut sp = match ServerProc::start(&cfg) {
@@ -512,11 +566,19 @@ fn shutdown_case(out: &mut Out, r: &mut Rng, nworkers: usize, client_stats: bool
                 }
             } else {
                 sock.set_read_timeout(Some(Duration::from_millis(200))).unwrap();
+                let mut outstanding: Vec<Vec<u8>> = vec![];
                 while !stop.load(Ordering::Relaxed) {
                     let req = if rr.chance(1, 2) { classic_request(&rr.bytes(64), 1024) } else { ietf_request(&VER13, None, &rr.bytes(32), 1024) };
                     let _ = sock.send_to(&req, addr);
+                    outstanding.push(req);
+                    if outstanding.len() > 8 { outstanding.remove(0); }
                     if let Ok((n, _)) = sock.recv_from(&mut buf) {
-                        pairs.push((req, buf[..n].to_vec()));
+                        let reply = buf[..n].to_vec();
+                        // attribute by echoed nonce; a reply with an unknown nonce is kept against an
+                        // empty request so that the verifier reports it
+                        let rn = nonce_of(&reply);
+                        let q = outstanding.iter().find(|q| rn.is_some() && nonce_of(q) == rn).cloned().unwrap_or_default();
+                        pairs.push((q, reply));
                         if pairs.len() > 60 {
                             pairs.remove(0); // keep the LAST responses before exit
                         }
